@@ -4,7 +4,7 @@
     (the new block never replaces a block, so [add_block]'s precondition holds vacuously). *)
 From Coq Require Import Ascii String List Bool PArith NArith FMapPositive Permutation Lia.
 From PTBase Require Import Exn PyStr.
-From P Require Import Assoc GridEdit GridLemmas Inv InvRock InvBlock InvConn.
+From P Require Import Assoc GridEdit GridLemmas Inv InvRock InvBlock InvConnAdd.
 Import ListNotations.
 Open Scope list_scope.
 
